@@ -13,6 +13,9 @@
 //              Verify overload; every octet of the signature packet and of each hashed object flipped.
 //   block    : transferable public key (key, user id, positive certification, subkey, binding) through PublicKeyBlockParse +
 //              CheckSelfSignatures + CheckSubkeys; every octet of the block flipped.
+//   short    : length classes of signature values (leading zero octets -> shorter MPIs): messages #0,#1,.. signed until
+//              {none, first, second, both} short have each been seen K times (bound stated in c20_sig_more.hh); accept +
+//              Python verification + every octet flipped for each.
 //   validity : CheckValidity with the virtual clock at creation-25h-1s .. creation+expiry+1s, key creation +-1 s, far future.
 // Tiers: quick = tamper loops for SHA-256 cells (all algorithms) and SHA-512/SHA-1 cells of RSA/EdDSA, `types` with SHA-256 and a
 // reduced pair set for DSA/ECDSA, bit 0; thorough = everything, bits 0 and 7, gpg as secondary judge.  Tamper loops run in forked
@@ -458,6 +461,7 @@ int main(int argc, char **argv)
 	else if (family == "types") fam_types();
 	else if (family == "block") fam_block();
 	else if (family == "validity") fam_validity();
+	else if (family == "short") fam_short();
 	else { fprintf(stderr, "unknown family %s\n", family.c_str()); return 2; }
 	rep.counters["ref_lines"] = RO.lines;
 	rep.finish();
